@@ -4453,6 +4453,9 @@ class Frame(ContainerOperand):
 
         for idx, group in enumerate(groups):
             selection = locations == idx
+            if group_to_tuple:
+                # a label for more than one depth must be hashable
+                group = tuple(group)
 
             if axis == 0:
                 # axis 0 is a row iter, so need to slice index, keep columns
